@@ -159,10 +159,10 @@ Proof.
   exfalso. exact (parse_never_panics p f E).
 Qed.
 
-Theorem extract_never_panics : forall i386 x86_64 arch_id f, extract_syscalls i386 x86_64 arch_id f <> Panic.
+Theorem extract_never_panics : forall i386 x86_64 arch_id arch_mask f, extract_syscalls i386 x86_64 arch_id arch_mask f <> Panic.
 Proof.
-  intros. unfold extract_syscalls. destruct (arch_id =? fst i386); [apply parse_never_panics|].
-  destruct (arch_id =? fst x86_64); [apply parse_never_panics|discriminate].
+  intros. unfold extract_syscalls. destruct (selects arch_id arch_mask i386); [apply parse_never_panics|].
+  destruct (selects arch_id arch_mask x86_64); [apply parse_never_panics|discriminate].
 Qed.
 
 (** ** Unreadable texts are errors *)
@@ -439,88 +439,112 @@ Proof.
   injection H as <-. apply run_pure_in_table.
 Qed.
 
-(** ExtractSyscalls: the table is that of the parser selected by the architecture id *)
-Theorem extract_reported_in_table : forall i386 x86_64 arch_id f recs,
-  extract_syscalls i386 x86_64 arch_id f = Done recs ->
-  (arch_id = fst i386 /\ Forall (in_table (snd i386)) recs) \/
-  (arch_id <> fst i386 /\ arch_id = fst x86_64 /\ Forall (in_table (snd x86_64)) recs).
+(** ExtractSyscalls: the table is that of the parser selected by (audit id, syscall mask) *)
+Theorem extract_reported_in_table : forall i386 x86_64 arch_id arch_mask f recs,
+  extract_syscalls i386 x86_64 arch_id arch_mask f = Done recs ->
+  (selects arch_id arch_mask i386 = true /\ Forall (in_table (ar_table i386)) recs) \/
+  (selects arch_id arch_mask i386 = false /\ selects arch_id arch_mask x86_64 = true /\ Forall (in_table (ar_table x86_64)) recs).
 Proof.
-  intros i386 x86_64 arch_id f recs H. unfold extract_syscalls in H.
-  destruct (N.eqb_spec arch_id (fst i386)) as [E|E].
-  - left. split; [exact E|]. exact (reported_in_table _ _ _ H).
-  - destruct (N.eqb_spec arch_id (fst x86_64)) as [E2|E2]; [|discriminate].
-    right. split; [exact E|]. split; [exact E2|]. exact (reported_in_table _ _ _ H).
+  intros i386 x86_64 arch_id arch_mask f recs H. unfold extract_syscalls in H.
+  destruct (selects arch_id arch_mask i386).
+  - left. split; [reflexivity|]. exact (reported_in_table _ _ _ H).
+  - destruct (selects arch_id arch_mask x86_64); [|discriminate].
+    right. split; [reflexivity|]. split; [reflexivity|]. exact (reported_in_table _ _ _ H).
 Qed.
 
-Theorem extract_unsupported : forall i386 x86_64 arch_id f,
-  arch_id <> fst i386 -> arch_id <> fst x86_64 -> extract_syscalls i386 x86_64 arch_id f = Failed EUnsupportedArch.
+Theorem extract_unsupported : forall i386 x86_64 arch_id arch_mask f,
+  selects arch_id arch_mask i386 = false -> selects arch_id arch_mask x86_64 = false ->
+  extract_syscalls i386 x86_64 arch_id arch_mask f = Failed EUnsupportedArch.
+Proof. intros i386 x86_64 arch_id arch_mask f H1 H2. unfold extract_syscalls. rewrite H1, H2. reflexivity. Qed.
+
+(** a record whose (id, mask) selects a parser and whose own table is that parser's table -- decidable,
+    so that it can be checked by computation for every record of the regenerated arch package *)
+Fixpoint tbl_eqb (a b:list (N * string)) : bool :=
+  match a, b with
+  | [], [] => true
+  | (n, s) :: r, (n', s') :: r' => (n =? n') && String.eqb s s' && tbl_eqb r r'
+  | _, _ => false
+  end.
+
+Lemma tbl_eqb_eq : forall a b, tbl_eqb a b = true -> a = b.
 Proof.
-  intros i386 x86_64 arch_id f H1 H2. unfold extract_syscalls.
-  destruct (N.eqb_spec arch_id (fst i386)); [congruence|]. destruct (N.eqb_spec arch_id (fst x86_64)); [congruence|reflexivity].
+  induction a as [|[n s] r IH]; intros [|[n' s'] r'] H; cbn [tbl_eqb] in H; try discriminate; [reflexivity|].
+  apply andb_true_iff in H. destruct H as [H Hr]. apply andb_true_iff in H. destruct H as [Hn Hs].
+  apply N.eqb_eq in Hn. apply String.eqb_eq in Hs. subst. f_equal. apply IH. exact Hr.
+Qed.
+
+Definition own_table_ok (i386 x86_64:arch_rec) (arch_id arch_mask:N) (table:list (N * string)) : bool :=
+  if selects arch_id arch_mask i386 then tbl_eqb (ar_table i386) table
+  else if selects arch_id arch_mask x86_64 then tbl_eqb (ar_table x86_64) table
+  else true.
+
+Theorem extract_reported_in_own_table : forall i386 x86_64 arch_id arch_mask table f recs,
+  own_table_ok i386 x86_64 arch_id arch_mask table = true ->
+  extract_syscalls i386 x86_64 arch_id arch_mask f = Done recs -> Forall (in_table table) recs.
+Proof.
+  intros i386 x86_64 arch_id arch_mask table f recs Hok H. unfold own_table_ok in Hok.
+  destruct (extract_reported_in_table _ _ _ _ _ _ H) as [[E F]|[E1 [E2 F]]].
+  - rewrite E in Hok. apply tbl_eqb_eq in Hok. rewrite <- Hok. exact F.
+  - rewrite E1, E2 in Hok. apply tbl_eqb_eq in Hok. rewrite <- Hok. exact F.
 Qed.
 
 (** ** The same statements for ExtractSyscalls (whatever the two architecture records are) *)
-Ltac by_parser i386 x86_64 arch_id :=
-  unfold extract_syscalls in *; destruct (arch_id =? fst i386); [|destruct (arch_id =? fst x86_64)].
+Ltac by_parser i386 x86_64 arch_id arch_mask :=
+  unfold extract_syscalls in *; destruct (selects arch_id arch_mask i386); [|destruct (selects arch_id arch_mask x86_64)].
 
-Theorem extract_total : forall i386 x86_64 arch_id f,
-  (exists recs, extract_syscalls i386 x86_64 arch_id f = Done recs) \/ (exists e, extract_syscalls i386 x86_64 arch_id f = Failed e).
+Theorem extract_total : forall i386 x86_64 arch_id arch_mask f,
+  (exists recs, extract_syscalls i386 x86_64 arch_id arch_mask f = Done recs) \/ (exists e, extract_syscalls i386 x86_64 arch_id arch_mask f = Failed e).
 Proof.
-  intros. by_parser i386 x86_64 arch_id; [apply parse_total|apply parse_total|right; eexists; reflexivity].
+  intros. by_parser i386 x86_64 arch_id arch_mask; [apply parse_total|apply parse_total|right; eexists; reflexivity].
 Qed.
 
-Theorem extract_open_error_is_error : forall i386 x86_64 arch_id, exists e, extract_syscalls i386 x86_64 arch_id OpenFails = Failed e.
-Proof. intros. by_parser i386 x86_64 arch_id; eexists; reflexivity. Qed.
+Theorem extract_open_error_is_error : forall i386 x86_64 arch_id arch_mask, exists e, extract_syscalls i386 x86_64 arch_id arch_mask OpenFails = Failed e.
+Proof. intros. by_parser i386 x86_64 arch_id arch_mask; eexists; reflexivity. Qed.
 
-Theorem extract_read_error_is_error : forall i386 x86_64 arch_id data,
-  exists e, extract_syscalls i386 x86_64 arch_id (Content data true) = Failed e.
+Theorem extract_read_error_is_error : forall i386 x86_64 arch_id arch_mask data,
+  exists e, extract_syscalls i386 x86_64 arch_id arch_mask (Content data true) = Failed e.
 Proof.
-  intros. by_parser i386 x86_64 arch_id; [apply read_error_is_error|apply read_error_is_error|eexists; reflexivity].
+  intros. by_parser i386 x86_64 arch_id arch_mask; [apply read_error_is_error|apply read_error_is_error|eexists; reflexivity].
 Qed.
 
-Theorem extract_long_line_is_error : forall i386 x86_64 arch_id a l b fails,
+Theorem extract_long_line_is_error : forall i386 x86_64 arch_id arch_mask a l b fails,
   (a = EmptyString \/ exists a', a = a' ++ newline) ->
   (b = EmptyString \/ exists b', b = String nl b') ->
   no_nl l -> max_token <= length_N l ->
-  exists e, extract_syscalls i386 x86_64 arch_id (Content (a ++ l ++ b) fails) = Failed e.
+  exists e, extract_syscalls i386 x86_64 arch_id arch_mask (Content (a ++ l ++ b) fails) = Failed e.
 Proof.
-  intros i386 x86_64 arch_id a l b fails Ha Hb Hl Hlen.
-  by_parser i386 x86_64 arch_id; eexists; [apply long_line_is_error; assumption|apply long_line_is_error; assumption|reflexivity].
+  intros i386 x86_64 arch_id arch_mask a l b fails Ha Hb Hl Hlen.
+  by_parser i386 x86_64 arch_id arch_mask; eexists; [apply long_line_is_error; assumption|apply long_line_is_error; assumption|reflexivity].
 Qed.
 
-Theorem extract_done_means_complete : forall i386 x86_64 arch_id data fails recs,
-  extract_syscalls i386 x86_64 arch_id (Content data fails) = Done recs ->
+Theorem extract_done_means_complete : forall i386 x86_64 arch_id arch_mask data fails recs,
+  extract_syscalls i386 x86_64 arch_id arch_mask (Content data fails) = Done recs ->
   fails = false /\ Forall (fun t => length_N t < max_token) (scan_raw data).
 Proof.
-  intros i386 x86_64 arch_id data fails recs H.
-  by_parser i386 x86_64 arch_id; [| |discriminate]; destruct (done_means_complete _ _ _ _ H) as [F [L _]]; split; assumption.
+  intros i386 x86_64 arch_id arch_mask data fails recs H.
+  by_parser i386 x86_64 arch_id arch_mask; [| |discriminate]; destruct (done_means_complete _ _ _ _ H) as [F [L _]]; split; assumption.
 Qed.
 
-Theorem extract_function_scoped_text : forall i386 x86_64 arch_id a b ra rb,
+Theorem extract_function_scoped_text : forall i386 x86_64 arch_id arch_mask a b ra rb,
   (a = EmptyString \/ exists a', a = a' ++ newline) ->
   has_prefix function_marker b = true ->
-  extract_syscalls i386 x86_64 arch_id (Content a false) = Done ra ->
-  extract_syscalls i386 x86_64 arch_id (Content b false) = Done rb ->
-  extract_syscalls i386 x86_64 arch_id (Content (a ++ b) false) = Done (ra ++ rb)%list.
+  extract_syscalls i386 x86_64 arch_id arch_mask (Content a false) = Done ra ->
+  extract_syscalls i386 x86_64 arch_id arch_mask (Content b false) = Done rb ->
+  extract_syscalls i386 x86_64 arch_id arch_mask (Content (a ++ b) false) = Done (ra ++ rb)%list.
 Proof.
-  intros i386 x86_64 arch_id a b ra rb Ha Hb Pa Pb.
-  by_parser i386 x86_64 arch_id; [| |discriminate]; apply function_scoped_text; assumption.
+  intros i386 x86_64 arch_id arch_mask a b ra rb Ha Hb Pa Pb.
+  by_parser i386 x86_64 arch_id arch_mask; [| |discriminate]; apply function_scoped_text; assumption.
 Qed.
 
-Theorem extract_append_monotone_text : forall i386 x86_64 arch_id a b ra rb,
+Theorem extract_append_monotone_text : forall i386 x86_64 arch_id arch_mask a b ra rb,
   (a = EmptyString \/ exists a', a = a' ++ newline) ->
-  extract_syscalls i386 x86_64 arch_id (Content a false) = Done ra ->
-  extract_syscalls i386 x86_64 arch_id (Content b false) = Done rb ->
-  exists rest, extract_syscalls i386 x86_64 arch_id (Content (a ++ b) false) = Done (ra ++ rest)%list.
+  extract_syscalls i386 x86_64 arch_id arch_mask (Content a false) = Done ra ->
+  extract_syscalls i386 x86_64 arch_id arch_mask (Content b false) = Done rb ->
+  exists rest, extract_syscalls i386 x86_64 arch_id arch_mask (Content (a ++ b) false) = Done (ra ++ rest)%list.
 Proof.
-  intros i386 x86_64 arch_id a b ra rb Ha Pa Pb.
-  by_parser i386 x86_64 arch_id; [| |discriminate]; eapply append_monotone_text; eassumption.
+  intros i386 x86_64 arch_id arch_mask a b ra rb Ha Pa Pb.
+  by_parser i386 x86_64 arch_id arch_mask; [| |discriminate]; eapply append_monotone_text; eassumption.
 Qed.
-
-(** the parser (and table) depends on the audit architecture id only *)
-Theorem extract_by_id : forall i386 x86_64 id1 id2 f, id1 = id2 ->
-  extract_syscalls i386 x86_64 id1 f = extract_syscalls i386 x86_64 id2 f.
-Proof. intros; subst; reflexivity. Qed.
 
 (** ** Non-vacuity: a concrete listing with two functions and a decoy MOV before the marker *)
 Definition lf (s:string) : string := s ++ newline.
